@@ -119,6 +119,29 @@ def run(ctx):
             passthrough = rng.random() < 0.7
             one_workflow(ctx, li, spec, ops, opdecls, lang, listed, wf, bits, passthrough)
     deferred_typing_family(ctx)
+    head_input_family(ctx)
+
+
+def head_input_family(ctx):
+    """a function-valued resource applied by a later tool (`1 2`: input 1 in head position). Found by the C12Iso proof
+    (C12i_function_resource_breaks) and replayed: the consumer's application node is a fresh node that is never wired - known finding D32"""
+    rng = ctx.rng
+    decls = list(G.BUILTIN_DECLS) + [("A", [], None), ("B", [], None)]
+    spec = G.LangSpec(decls)
+    ops = spec.build()
+    a, b = (spec.bases()[0], ()), (spec.bases()[1], ())
+    opdecls = [("f", {"nvars": 0, "nwild": 0, "body": X.fun(a, b), "constraints": []}),
+               ("g", {"nvars": 0, "nwild": 0, "body": X.fun(b, a), "constraints": []})]
+    listed = [a, b]
+    lang, operators = X.build_typed_language(spec, ops, opdecls, canon=listed)
+    ctx.setup(spec.sexp(), "ok T")
+    ctx.setup("(aliases)", "ok")
+    ctx.setup(X.operators_line(opdecls), "ok")
+    ctx.setup("(canon F F " + " ".join(G.ty_sexp(t) for t in listed) + ")", "ok")
+    wf = {"sources": ["s0"], "apps": [("t0", "f", []), ("t1", "1 2", ["t0", "s0"]), ("t2", "g 1", ["t1"])]}
+    bits = "".join("T" if n in ("with_types", "with_intermediate_types", "with_noncanonical_types", "with_operators") else "F" for n in GG.SWITCHES)
+    ctx.count("head_input_workflows")
+    one_workflow(ctx, ("hi", 0), spec, ops, opdecls, lang, listed, wf, bits, True)
 
 
 def deferred_typing_family(ctx):
@@ -242,7 +265,7 @@ def one_workflow(ctx, li, spec, ops, opdecls, lang, listed, wf, bits, passthroug
         if not same:
             ctx.fail(f"workflow {wf} (switches {bits}): graph of add_workflow differs from the graph of add_expr on the inlined expression: "
                      + GG.diff_summary(GG.graph_text(strip_wf(g, root), lang, root, None), GG.graph_text(strip_wf(g2, root), lang, root, None)),
-                {"check": "inline"}, replay)
+                {"check": "inline", "input_in_head_position": any(a[1].lstrip("( ")[:1].isdigit() for a in wf["apps"])}, replay)
     elif not passthrough:
         no_passthrough_oracle(ctx, wf, g, m, lang, replay)
         source_type_oracle(ctx, wf, g, m, lang, bits, replay)
